@@ -34,11 +34,9 @@ def run_pair(L, i, j, S_lo, S_hi, zero=False):
         a = hash_stream(m, x * 10 ** i, s + i)
         b = hash_stream(m, x * 10 ** j, s + j)
         m.labels.add('zero' if zero else 'nonzero')
-        if len(a) != 1 or len(b) != 1:
-            return [('exactly one write to the hasher per value', True)]
-        a, b = a[0], b[0]
-        if len(a) != len(b):
-            return [('equal values hash streams of equal length (%d vs %d bytes)' % (len(a), len(b)), True)]
+        if [len(ch) for ch in a] != [len(ch) for ch in b]:
+            return [('equal values make the same sequence of Hasher::write calls (chunk lengths %r vs %r)' % ([len(ch) for ch in a], [len(ch) for ch in b]), True)]
+        a, b = [x for ch in a for x in ch], [x for ch in b for x in ch]
         diffs = [p != q for p, q in zip(a, b) if is_sym(p) or is_sym(q) or p != q]
         diffs = [d if not isinstance(d, bool) else z3.BoolVal(d) for d in diffs]
         return [('equal values feed identical bytes', z3.Or(diffs) if diffs else False)]
@@ -75,7 +73,7 @@ def validate(prog, rng, n):
         m = E.Machine(prog, (), [], E.Stats(), loop_bound=3000)
         try:
             rec = hash_stream(m, x, s)
-            mine = ','.join(str(bb) for w in rec for bb in w)
+            mine = '|'.join(','.join(str(bb) for bb in w) for w in rec)
         except E.PathEnd as e:
             mine = 'ENGINE:%s' % e
         if mine != nat:
